@@ -304,7 +304,7 @@ def _p10(ctx):
                         % ([sorted(a.paths)[0] for a in srcs], bool(arith)), where=x.where_stmt(nid, si), sub=sub + '|startpos')
                 masks = [s for s in g.walk(e) if s[0] == 'fld' and s[2] == 'CountedIndex.mask']
                 okm = any(any(p.startswith('<Reader>/Reader.pos/ReaderPos.pos_data') for p in g.locpaths(('ref', s))) for s in masks)
-                ctx.add('P15', 'T-FLOW', fn, okm, 'the new stream uses the parent\'s wrap (same count->slot map)' if okm else 'new stream wrap does not derive from the parent', sub=sub + '|wrap')
+                ctx.add('P15w', 'T-FLOW', fn, okm, 'the new stream uses the parent\'s wrap (same count->slot map)' if okm else 'new stream wrap does not derive from the parent', sub=sub + '|wrap')
     # f: scan re-validation
     g = ctx.graph(gmd)
     x = g.x
